@@ -11,6 +11,8 @@
 #include "nmtools/array/index/remove_dims.hpp"
 #include "nmtools/array/view/transpose.hpp"
 #include "nmtools/array/view/sum.hpp"
+#include "nmtools/array/view/repeat.hpp"
+#include "nmtools/array/index/cumsum.hpp"
 #include "nmtools/array/view/ufuncs/subtract.hpp"
 namespace nm = nmtools; namespace ix = nm::index; namespace na = nm::array; namespace meta = nm::meta; namespace view = nm::view;
 #ifndef KSUFFIX
@@ -103,3 +105,21 @@ KERNEL int K(k_c9_reshape_ctdst)(int ks, const size_t* s, size_t* out, size_t* n
 }
 // all-constant source and target: folded in the type system
 KERNEL int K(k_c9_reshape_ctct)(size_t* out, size_t* n){ return put_maybe_ct(ix::shape_reshape(nmtools_tuple{1_ct,3_ct,2_ct}, nmtools_tuple{2_ct,3_ct}), out, n); }
+
+// ---- clipped (bounded) VALUES as arguments: per-element repeats of view::repeat given as a fixed array, a bounded static vector, or a tuple of clipped_size_t<3> holding the same run-time values
+using rep_src_t = na::ndarray_t< nmtools_static_vector<unsigned,6>, nmtools_array<size_t,2> >;
+template <typename V> static inline int rep_obs(const V& mv, size_t i, size_t j, size_t* os, unsigned* out){ if (!nm::has_value(mv)) return 0; const auto& v = nm::unwrap(mv); auto s = nm::shape(v); os[0]=nm::at(s,0); os[1]=nm::at(s,1); *out = v(i,j); return 1; }
+KERNEL int K(k_c9_repeat3)(int kind, const unsigned* d, const size_t* reps, size_t i, size_t j, size_t* os, unsigned* out){
+  rep_src_t a; if(!a.resize((size_t)3,(size_t)2)) return 0; for (size_t k=0;k<6;k++) a.data_[k]=d[k];
+  if (kind==0) return rep_obs(view::repeat(a, A<3>(reps), 0), i, j, os, out);
+  if (kind==1) return rep_obs(view::repeat(a, S<4>(reps,3), 0), i, j, os, out);
+  using cl = nm::clipped_size_t<3>; nmtools_tuple<cl,cl,cl> r{cl(reps[0]), cl(reps[1]), cl(reps[2])};
+  return rep_obs(view::repeat(a, r, 0), i, j, os, out);
+}
+// index::cumsum of the same three values in the three kinds
+KERNEL void K(k_c9_cumsum3)(int kind, const size_t* v, size_t* out){
+  if (kind==0) { put(ix::cumsum(A<3>(v)), out); return; }
+  if (kind==1) { put(ix::cumsum(S<4>(v,3)), out); return; }
+  using cl = nm::clipped_size_t<3>; nmtools_tuple<cl,cl,cl> r{cl(v[0]), cl(v[1]), cl(v[2])}; auto c = ix::cumsum(r);
+  out[0] = (size_t)nm::get<0>(c); out[1] = (size_t)nm::get<1>(c); out[2] = (size_t)nm::get<2>(c);
+}
